@@ -364,6 +364,7 @@ class Repo:
         self.modules: Dict[str, ModuleInfo] = {}
         self.functions: Dict[str, FuncInfo] = {}
         self.classes: Dict[str, ClassInfo] = {}
+        self.renamed_back: Dict[str, Dict[str, str]] = {}
         self._load()
 
     # ---- loading
@@ -401,6 +402,10 @@ class Repo:
     def _index_module(self, m: ModuleInfo):
         def index_func(node, prefix, cls, parent) -> FuncInfo:
             q = f"{prefix}.{node.name}"
+            if parent is None:
+                mp = undo_local_renames(q, node)
+                if mp:
+                    self.renamed_back[q] = mp
             fi = FuncInfo(q, node, m, cls, parent)
             self.functions[q] = fi
             for sub in walk_no_nested_children(node):
@@ -589,6 +594,67 @@ def is_noise(s: ast.stmt) -> bool:
 
 def real_body(stmts) -> List[ast.stmt]:
     return [s for s in stmts if not is_noise(s)]
+
+
+def local_names_in_order(fn) -> List[str]:
+    """names bound (Store/Del) inside the function subtree, excluding parameters of any def in it, names declared
+    global/nonlocal and names of nested defs, in order of first binding"""
+    params = set()
+    declared = set()
+    nested = set()
+    for n in ast.walk(fn):
+        if isinstance(n, ast.arguments):
+            for a in n.posonlyargs + n.args + n.kwonlyargs:
+                params.add(a.arg)
+            if n.vararg:
+                params.add(n.vararg.arg)
+            if n.kwarg:
+                params.add(n.kwarg.arg)
+        elif isinstance(n, (ast.Global, ast.Nonlocal)):
+            declared |= set(n.names)
+        elif isinstance(n, (ast.FunctionDef, ast.AsyncFunctionDef, ast.ClassDef)) and n is not fn:
+            nested.add(n.name)
+    seen: Dict[str, Tuple[int, int]] = {}
+    for n in ast.walk(fn):
+        if isinstance(n, ast.Name) and isinstance(n.ctx, (ast.Store, ast.Del)):
+            if n.id in params or n.id in declared or n.id in nested:
+                continue
+            pos = (getattr(n, "lineno", 0), getattr(n, "col_offset", 0))
+            if n.id not in seen or pos < seen[n.id]:
+                seen[n.id] = pos
+    return [k for k, _ in sorted(seen.items(), key=lambda kv: kv[1])]
+
+
+_NAMES_TABLE: Optional[Dict[str, List[str]]] = None
+
+
+def names_table() -> Dict[str, List[str]]:
+    global _NAMES_TABLE
+    if _NAMES_TABLE is None:
+        p = os.path.join(os.path.dirname(os.path.abspath(__file__)), "names.json")
+        _NAMES_TABLE = {}
+        if os.path.exists(p) and not os.environ.get("QV_NO_NAME_NORMALISATION"):
+            with open(p) as fh:
+                _NAMES_TABLE = json.load(fh)
+    return _NAMES_TABLE
+
+
+def undo_local_renames(qualname: str, fn) -> Dict[str, str]:
+    """If the locals of `fn` differ from the frozen list only by a consistent renaming (same number of new and of
+    missing names, in the same first-binding order), rename them back in place.  Returns the mapping applied."""
+    frozen = names_table().get(qualname)
+    if not frozen:
+        return {}
+    cur = local_names_in_order(fn)
+    new = [n for n in cur if n not in frozen]
+    missing = [n for n in frozen if n not in cur]
+    if not new or len(new) != len(missing):
+        return {}
+    mp = dict(zip(new, missing))
+    for n in ast.walk(fn):
+        if isinstance(n, ast.Name) and n.id in mp:
+            n.id = mp[n.id]
+    return mp
 
 
 def iter_module_stmts(tree: ast.Module) -> Iterator[ast.stmt]:
